@@ -55,10 +55,16 @@ def run(chk):
                        "equals the input's (rule_rewrite_exact.shs); whitespace theorems (GE/Thm/C08Ws.lean): the selector loops write exactly the collapse of the "
                        "input's whitespace (leading / trailing dropped, every inner run kept as one: a descendant combinator always survives, at every nesting "
                        "depth of selector functions; none is invented), and in calc() the whitespace next to + / - is written. PARTIAL: the separator table "
-                       "`needsSep` making adjacent tokens re-tokenise apart and the at-rule dispatch are checked by oracle and correspondence, not by a theorem; "
+                       "`needsSep` making adjacent tokens re-tokenise apart is checked by oracle and correspondence, not by a theorem; the at-rule dispatch and the rule "
+                       "loop ARE covered: sheet_partition (GE/Thm/C17Sheet.lean) — for the whole stylesheet model, no import sign, the written token kinds of both "
+                       "outputs are exactly those of a fuel-free token-by-token reading of the input (no token merged, split, dropped, duplicated or reordered at "
+                       "any nesting of rule-bearing at-rules); "
                        "the serializer of single tokens is cssparser's"]
     csscheck.run_property(chk, "C08", "GE.Thm.C09", THEOREMS[:4], 700, 12000, extra_cases=extra_cases)
     failed, log = chk.prove("GE.Thm.C08Ws", THM_WS)
+    for t in failed:
+        chk.violation("proof", f"obligation {t} no longer checks", theorem=t, log=log[-3000:])
+    failed, log = chk.prove("GE.Thm.C17Sheet", ["GE.Css.sheet_partition", "GE.Css.rules_sheet", "GE.Css.atLoop_sheet"])
     for t in failed:
         chk.violation("proof", f"obligation {t} no longer checks", theorem=t, log=log[-3000:])
     failed, log = chk.prove("GE.Thm.C19", THEOREMS[4:])
